@@ -327,7 +327,7 @@ def run():
             timeout=1700 if chk.thorough else 600)
         byid = {c.id: c for c in cases}
         nc.confirm_and_report(chk, sc, "NumTrace.tla", cfg, byid, events, outs, rejected, "c04", fixbits)
-        # ---- evidence
+        nc.binding_selftest(chk, sc, "NumTrace.tla", cfg, events, rejected, "c04")
         acc = [c for c in cases if c.id not in rejected]
         chk.cov["traces_validated_against_impl"] = len(acc)
         chk.cov["evaluations"] = len(cases)
